@@ -331,6 +331,26 @@ unsigned int __wrap_sleep(unsigned int n)
 	return 0;
 }
 
+/* which network tools the simulated host has installed: 0 = whatever this machine has, 1 = iproute2 only (no net-tools:
+   no ifconfig / route), 2 = none of them, 3 = net-tools only */
+static int host_profile = 0;
+int __real_access(const char *path, int mode);
+int __wrap_access(const char *path, int mode)
+{
+	const char *b = strrchr(path, '/');
+	b = b ? b + 1 : path;
+	if (cur >= 0 && host_profile != 0) {
+		int nettools = !strcmp(b, "ifconfig") || !strcmp(b, "route") || !strcmp(b, "netstat");
+		int iproute = !strcmp(b, "ip");
+		if (nettools || iproute) {
+			int have = (nettools && host_profile == 3) || (iproute && host_profile == 1);
+			if (!have) errno = ENOENT;
+			return have ? 0 : -1;
+		}
+	}
+	return __real_access(path, mode);
+}
+
 int __wrap_system(const char *cmd)
 {
 	if (cur < 0)
@@ -901,6 +921,8 @@ int main(int argc, char **argv)
 			vt_us = atoll(tok[1]);
 		} else if (!strcmp(tok[0], "sysrc") && nt == 2) {
 			system_rc = atoi(tok[1]);
+		} else if (!strcmp(tok[0], "hostprofile") && nt == 2) {
+			host_profile = atoi(tok[1]);
 		} else if (!strcmp(tok[0], "residue") && nt >= 2) {
 			residue_mode = atoi(tok[1]);
 			free(residue_blob);
